@@ -745,11 +745,59 @@ def verify_guards(world, prog, readers):
     return out
 
 
+def _top_op(text):
+    """(operator, left, right) of the comparison at the top level of a parenthesised condition text"""
+    t = text.strip()
+    while t.startswith("(") and t.endswith(")"):
+        d = 0
+        for i, ch in enumerate(t):
+            d += ch == "("
+            d -= ch == ")"
+            if d == 0 and i < len(t) - 1:
+                break
+        else:
+            t = t[1:-1].strip()
+            continue
+        break
+    d = 0
+    i = 0
+    while i < len(t):
+        ch = t[i]
+        if ch == "(":
+            d += 1
+        elif ch == ")":
+            d -= 1
+        elif d == 0:
+            for op in ("==", "!=", "<=", ">=", "<<", ">>", "->", "<", ">"):
+                if t.startswith(op, i):
+                    if op in ("<<", ">>", "->"):
+                        i += len(op) - 1
+                        break
+                    return op, t[:i].strip(), t[i + len(op):].strip()
+        i += 1
+    return None, None, None
+
+
 def _cond_key(text):
+    """what a condition reads, and its polarity; the spelling of an equivalent rewrite (negated comparison
+    against the opposite operator, swapped operands, renumbered placeholders) leaves the key alone"""
     import re
     neg = text.startswith("!")
-    toks = set(re.findall(r"[A-Za-z_][A-Za-z0-9_]*", text))
-    return ("!" if neg else "") + " ".join(sorted(toks))
+    body = text[1:] if neg else text
+    op, lhs, rhs = _top_op(body)
+    if op in ("==", "!=") and "0" in (lhs, rhs):
+        # X == 0 is !X
+        pol = "!" if (neg != (op == "==")) else ""
+    elif op in ("==", "!="):
+        pol = "!" if (neg != (op == "!=")) else ""
+    elif op in ("<", ">", "<=", ">="):
+        # operand order is not part of the key, so only strictness is left of the direction
+        pol = "<" if (neg != (op in ("<", ">"))) else "<="
+    else:
+        pol = "!" if neg else ""
+    toks = set(re.findall(r"\$?[A-Za-z_][A-Za-z0-9_]*", text))
+    toks = {t for t in toks if not re.fullmatch(r"\$[pl][0-9]+", t)}
+    return pol + " ".join(sorted(t.lstrip("$") for t in toks))
 
 
 VG_REF = __import__("os").path.join(__import__("os").path.dirname(__import__("os").path.abspath(__file__)), "ref", "c14_verify_guards.tsv")
